@@ -5,6 +5,7 @@ import Driver.Verifier
 import Driver.Migrate
 import Driver.Sizes
 import Driver.Golden
+import Driver.OsFs
 open Driver
 
 def runStateless (f : String → String) : IO Unit := do
@@ -31,5 +32,6 @@ def main (args : List String) : IO UInt32 := do
   | ["migrate"] => runStateless migLine; return 0
   | ["sizes"] => runStateless sizesLine; return 0
   | ["golden"] => runStateless goldenLine; return 0
+  | ["fsdur"] => runStateless osfsLine; return 0
   | ["segment"] => runStateful ({} : SegSt) segLine; return 0
   | _ => IO.eprintln "usage: driver <suite>"; return 2
